@@ -29,6 +29,11 @@ def gen_var(rng, kind):
         fam = rng.choice(["gaussian", "uniform"])
         return {"kind": "D", "family": fam, "params": [c, rng.choice([0.125, 0.25])] if fam == "gaussian" else [c, c + rng.choice([0.5, 1.0])]}
     w = rng.choice([0.25, 0.5])
+    if rng.random() < 0.3:
+        # plateaus: several grid levels share one focal interval, so propagated boxes repeat with unequal multiplicities
+        k1 = rng.choice([50, 120, 150])
+        L = [c] * k1 + [c + 2.0] * (200 - k1)
+        return {"kind": "P", "ctor": "staircase", "args": [L, [v + w for v in L]]}
     if rng.random() < 0.5:
         return {"kind": "P", "ctor": "normal", "args": [[c, c + w], rng.choice([0.125, [0.125, 0.25]])]}
     return {"kind": "P", "ctor": "uniform", "args": [[c, c + w], [c + 1.0, c + 1.0 + w]]}
@@ -40,6 +45,9 @@ def build(v):
         return pba.I(v["lo"], v["hi"])
     if v["kind"] == "D":
         return pba.Distribution(v["family"], tuple(v["params"]))
+    if v["ctor"] == "staircase":
+        from pyuncertainnumber.pba.pbox_abc import Staircase
+        return Staircase(np.array(v["args"][0], float), np.array(v["args"][1], float))
     return getattr(pba, v["ctor"])(*v["args"])
 
 
